@@ -142,6 +142,31 @@ def run(ctx):
             run.finding(Finding(R4, us.id, "store_tx argument is not the slate parameter's transaction", site=us.loc(), detail=detail))
         c.require_pass(ctx, R4, us.id, c.WB + "store_tx", ("call", c.WOB + "save_tx_log_entry"), "log entry saved only after the transaction file was stored Ok")
 
+    R5 = "C02.R5"
+    run.rule(R5, "late-lock selection is one-shot: it consumes (take) the stored late-lock arguments before the context is re-saved", floor=3)
+    if fzf:
+        CT = c.LW + "types::Context"
+        takes = [(b, t) for b, t in fzf.calls() if t.get("f") == "core::option::Option::<T>::take" and vf.has_field(vf.producers(fzf, t["a"][0]), CT, "late_lock_args")]
+        if len(takes) != 1:
+            run.instance(R5, {"fn": "foreign::finalize_tx", "obligation": "context.late_lock_args.take() selects the late-lock arm", "found": len(takes)}, held=False)
+            run.finding(Finding(R5, fz, "the late-lock arm no longer consumes context.late_lock_args with take()", site=fzf.loc(),
+                                detail="a finalize attempt that fails after locking would leave the arguments in the stored context, so a retry selects and locks inputs again"))
+        else:
+            g = cfg.call_guard(fzf, takes[0][0])
+            for callee, what in ((SEL + "build_send_tx", "late input selection"), (c.LW + "api_impl::owner::tx_lock_outputs", "late locking"), ):
+                bs = {b for b, _t in cfg.find_calls(fzf, callee)}
+                h = bool(bs) and bool(g.ok) and cfg.must_pass(fzf, g.ok, bs)[0]
+                run.instance(R5, {"fn": "foreign::finalize_tx", "obligation": "%s only on the Some-edge of late_lock_args.take()" % what}, held=h)
+                if not h:
+                    run.finding(Finding(R5, fz, "%s reachable without consuming the late-lock arguments" % what, site=fzf.loc()))
+            # the context saved in that arm is the same local the arguments were taken from
+            base = vf.strip_clones(fzf, takes[0][1]["a"][0])
+            spc = [(b, t) for b, t in cfg.find_calls(fzf, c.WOB + "save_private_context")]
+            h = bool(spc) and all(vf.strip_clones(fzf, t["a"][2]) == base for _b, t in spc)
+            run.instance(R5, {"fn": "foreign::finalize_tx", "obligation": "the context re-saved after selection is the one whose late_lock_args were taken"}, held=h)
+            if not h:
+                run.finding(Finding(R5, fz, "a different context object is saved after late selection", site=fzf.loc()))
+
     run.not_decided += [
         "consensus validity of the produced transaction as such (cryptographic/numeric)",
         "that an altered reply is detected by the signature arithmetic (relies on verify_* semantics)",
